@@ -159,6 +159,16 @@ Definition live_after (s : O.st) (lv : list nat) (e : O.ev) : list nat :=
                     end
       | None => lv
       end
+  | O.ECancelErr id =>
+      (* Cancel whose deregistration exchange fails: cleanUp has run all the same (C08, round 2) *)
+      match nth_error (O.regs s) id with
+      | Some tok => match O.tget (O.crc64 tok) (O.tbl s) with
+                    | Some o => remove_nat (O.o_id o) lv
+                    | None => lv
+                    end
+      | None => lv
+      end
+  | O.EQuiet => lv
   end.
 
 Definition ostep (s : conn) (e : O.ev) : conn :=
